@@ -874,6 +874,64 @@ func c09InTx(f *ssa.Function) eng.Guard {
 	return g
 }
 
+// c09OwnArgument: v, used in fn (top itself or a function literal of top), is
+// top's own last parameter - directly, or as the parameter of the literal that
+// top passes that argument to. Returns "" if so, else what v may be instead.
+func c09OwnArgument(top, fn *ssa.Function, v ssa.Value) string {
+	if len(top.Params) < 2 {
+		return "the function has no such parameter"
+	}
+	want := ssa.Value(top.Params[len(top.Params)-1])
+	var frames []*nfFrame
+	if fn == top {
+		frames = []*nfFrame{nil}
+	} else {
+		for _, ci := range nfAllCalls(top) {
+			if g, _ := nfFuncValue(ci.Common().Value); g == fn {
+				frames = append(frames, &nfFrame{call: ci})
+				continue
+			}
+			// the literal is one of several a local variable may hold
+			for _, r := range eng.Roots(ci.Common().Value, nil) {
+				if g, _ := nfFuncValue(r); g == fn {
+					frames = append(frames, &nfFrame{call: ci})
+				}
+			}
+		}
+	}
+	if len(frames) == 0 {
+		return "the function literal is not called from " + eng.FuncName(top)
+	}
+	for _, fr := range frames {
+		os := nfOrigins(v, fr)
+		if len(os) == 0 {
+			return "no origin"
+		}
+		for _, o := range os {
+			if o.Val == want {
+				continue
+			}
+			// nfArgFor resolves only a literal that is the certain target of the call; for a call through
+			// a variable that may hold several literals, resolve the parameter by position here
+			if p, ok := o.Val.(*ssa.Parameter); ok && p.Parent() == fn && fr != nil {
+				matched := false
+				for i, q := range fn.Params {
+					if q == p && i < len(fr.call.Common().Args) {
+						for _, oo := range eng.Origins(fr.call.Common().Args[i]) {
+							matched = oo.Val == want
+						}
+					}
+				}
+				if matched {
+					continue
+				}
+			}
+			return o.Kind + ":" + o.Desc
+		}
+	}
+	return ""
+}
+
 func c09ObserverCall(cc *ssa.CallCommon) bool {
 	n := eng.CalleeName(cc)
 	return strings.Contains(n, "go-metrics") || strings.Contains(n, "go-hclog")
